@@ -4,6 +4,9 @@ from . import build as B
 
 VERIF = B.VERIF
 RUN = os.path.join(VERIF, ".run")
+# where evidence and replay files go; overridden only when the checks are pointed at a scratch copy of the
+# repository (VERIF_REPO) to try a seeded fault, so that the committed evidence is never overwritten by such a run
+OUT = os.environ.get("VERIF_OUT", VERIF)
 
 SAN_ENV = {
     "ASAN_OPTIONS": "abort_on_error=0:exitcode=99:detect_leaks=1:allocator_may_return_null=0:detect_stack_use_after_return=0:handle_abort=1:new_delete_type_mismatch=1",
@@ -227,14 +230,14 @@ def verdict(prop, cfg, tier, seed, merged, log):
         else:
             new[key] = n
     # hangs are retried once by the caller before they get here
-    os.makedirs(os.path.join(VERIF, "replays"), exist_ok=True)
+    os.makedirs(os.path.join(OUT, "replays"), exist_ok=True)
     lines = []
     for key in sorted(seen_known):
         lines.append("KNOWN-FINDING: property=%s %s (%s; seen %d times)" % (prop, known_keys[key]["what"], key, seen_known[key]))
     rc = 0
     for key in sorted(new):
         ex = next((v for v in merged["violations"] if v["key"] == key), None)
-        rp = os.path.join(VERIF, "replays", "%s-%s.json" % (prop, hashlib.sha1(key.encode()).hexdigest()[:10]))
+        rp = os.path.join(OUT, "replays", "%s-%s.json" % (prop, hashlib.sha1(key.encode()).hexdigest()[:10]))
         json.dump(dict(property=prop, key=key, tier=tier, seed=seed, count=new[key],
                        variant=(ex or {}).get("variant"), idx=(ex or {}).get("idx"),
                        desc=(ex or {}).get("desc"), detail=(ex or {}).get("detail"),
@@ -261,10 +264,10 @@ def verdict(prop, cfg, tier, seed, merged, log):
               violations=len(new))
     if cfg.get("exhaustive"):
         ev["coverage"]["exhaustive"] = True
-    os.makedirs(os.path.join(VERIF, "evidence"), exist_ok=True)
-    tmp = os.path.join(VERIF, "evidence", "%s.json.tmp%d" % (prop, os.getpid()))
+    os.makedirs(os.path.join(OUT, "evidence"), exist_ok=True)
+    tmp = os.path.join(OUT, "evidence", "%s.json.tmp%d" % (prop, os.getpid()))
     json.dump(ev, open(tmp, "w"), indent=1)
-    os.replace(tmp, os.path.join(VERIF, "evidence", "%s.json" % prop))
+    os.replace(tmp, os.path.join(OUT, "evidence", "%s.json" % prop))
     for l in lines:
         print(l)
     if rc == 0 and short:
